@@ -428,6 +428,7 @@ def run(chk):
         "Clone of a datum is identity in the model (data are immutable); HashMap/HashSet/Vec modelled",
         "parsing of syntax-rules forms (transform_transformer/pattern/template) and the re-expansion loop in the parser are outside",
     ]
+    chk.run_probes("syntax-rules", macro_probe, chk.ws.runner("dev"), len(MACRO_PROBES))
     chk.step("transform", spec_transform, chk, 3)
     chk.step("match kinds", spec_match_kinds, chk)
     chk.step("stream", spec_stream, chk, ND)
